@@ -87,6 +87,9 @@ CHECKS = {
  'C24': (['asan'], 'event-log monitor vs exact Gaussian-rational linear algebra in the monitor: determinants, inverses, RREF, char_poly and structural operations compared exactly; factorisations judged by defining relations; solvers by A*x == b; run with assertions recording but not throwing (release semantics) under ASan',
          'Matrices up to 6x6 / 5x7 in families aimed at pivoting, singularity, symmetry and positive definiteness; ~25 operations per square matrix, ~20 per rectangular one.',
          'Non-pivoting algorithms may decline visibly (exception or nan/zoo entries); QR and Cholesky judged numerically at 50 digits.', 'DESIGN.md 3/C24'),
+ 'C25': (['asan'], 'history monitor: CSR matrices built from COO triples and updated by set()/operations, with a dense model kept in lock-step; after every step the raw (p, j, x) arrays pass an independent canonical-format check, is_canonical() agrees, and the whole grid equals the model; ASan on the index arithmetic',
+         'Histories of construction (duplicates summed), 0-25 set() updates and binary/unary operations (canonical binop add/sub/mul, elementwise product, transpose, conjugate, row/column scaling, diagonal, jacobian).',
+         'CSR member functions that are unimplemented stubs (add_matrix, mul_matrix, scalar ops, submatrix) are recorded as declined.', 'DESIGN.md 3/C25'),
 }
 
 def main():
